@@ -34,7 +34,8 @@ type verdict struct {
 //	(3) Format(Parse(out)) == out
 //
 // and, where the survival census is switched on (census.go; the size family, the k = 1,
-// standalone and layout families; everywhere with C19_CENSUS_ALL=1), when (1)-(3) hold:
+// lexical-class, standalone, layout and first-environment composition families; everywhere
+// with C19_CENSUS_ALL=1), when (1)-(3) hold:
 //
 //	(4) every value of the input AST is a token of the formatted text (harness's own
 //	    token reader), and no AST field occurs less often after the round trip
